@@ -44,9 +44,11 @@ F_FILL = 'C03-unwritten-species-slot-read-as-value'
 F_STR = 'C03-optional-string-reads-empty'
 F_SPNONE = 'C03-optional-species-field-none-rejected'
 F_TMNONE = 'C03-optional-thrustmode-none-reads-fill'
+F_NPTS = 'C03-npoints-from-valueless-first-field'
 
-P4 = ['CO2', 'H2O', 'NOx', 'PMnvolN']  # enum positions 0, 1, 4, 15 (last)
-P3 = ['CO2', 'NOx', 'PMnvolN']
+# enum positions 0, 1, 3, 15 (last); 'CO' also makes name order differ from enum order (CO < CO2)
+P4 = ['CO2', 'H2O', 'CO', 'PMnvolN']
+P3 = ['CO2', 'CO', 'PMnvolN']
 KINDS = ['T', 'TP', 'TS', 'TSP', 'TM', 'TSM']
 SKINDS = ['TS', 'TSP', 'TSM']
 NUM = ['f8', 'f4', 'i4', 'i8']
@@ -82,7 +84,7 @@ def _sl_kinds(tier):
         sp = kind in SKINDS
         for d in dfl:
             for req, state in (('r', 'set'), ('o', 'set'), ('o', 'none'), ('o', 'left')):
-                subs = [['CO2', 'H2O'], ['CO2', 'NOx']] if (sp and state == 'set') else [[]]
+                subs = [['CO2', 'H2O'], ['CO', 'NOx']] if (sp and state == 'set') else [[]]
                 vs = ['plain', 'special'] + (['partial'] if kind in ('TM', 'TSM') else [])
                 if state != 'set':
                     vs = ['plain']
@@ -94,7 +96,7 @@ def _sl_kinds(tier):
     axes = {
         'kind/dtype': [f'{k}/{d}' for k, d in rows], 'default(T)': [0, 1],
         'state': ['required set', 'optional set', 'optional None', 'optional left'],
-        'species': ['CO2+H2O', 'CO2+NOx'], 'values': ['plain', 'special', 'partial modes'], 'npoints': lens,
+        'species': ['CO2+H2O', 'CO+NOx'], 'values': ['plain', 'special', 'partial modes'], 'npoints': lens,
         'layout': ['single', 'assoc1'],
     }  # fmt: skip
     return {'name': 'kinds x dtypes x states', 'axes': axes, 'cases': cases}
@@ -119,14 +121,15 @@ def _sl_one_species(tier):
     pal = P3 if tier == 'quick' else P4
     layouts = ['single', 'assoc1', 'mapped', 'memsave', 'memsave-assoc']
     reads = ['session', 'reopen', 'append']
+    dts = ['f8'] if tier == 'quick' else ['f8', 'i4']
     cases = []
-    for kind, sub, layout, read in itertools.product(SKINDS, subsets(pal), layouts, reads):
+    for kind, dt, sub, layout, read in itertools.product(SKINDS, dts, subsets(pal), layouts, reads):
         tr = [{'n': 3, 'st': [[['set', sub]]]}, {'n': 2, 'st': [[['set', sub]]]}]
         na = 1 if read == 'append' else 0
         if na:
             tr.append({'n': 4, 'st': [[['set', sub]]]})
-        cases.append(_case([[_fd(kind, 'f8')]], tr, layout=layout, read=read, n_append=na))
-    axes = {'kind': SKINDS, 'species subset': [','.join(s) or '-' for s in subsets(pal)], 'layout': layouts, 'read': reads}
+        cases.append(_case([[_fd(kind, dt)]], tr, layout=layout, read=read, n_append=na))
+    axes = {'kind': SKINDS, 'dtype': dts, 'species subset': [','.join(s) or '-' for s in subsets(pal)], 'layout': layouts, 'read': reads}
     return {'name': 'one species field: all subsets', 'axes': axes, 'cases': cases}
 
 
@@ -180,15 +183,15 @@ SCHEMES = {
     'same-prefix': ([['CO2', 'H2O']] * 3, [['CO2', 'H2O']] * 3),
     'same-gap': ([['CO2', 'NOx']] * 3, [['CO2', 'NOx']] * 3),
     'later-subset': ([['CO2', 'H2O']] * 3, [['CO2']] * 3),
-    'later-superset': ([['CO2', 'H2O']] * 3, [['CO2', 'H2O', 'NOx']] * 3),
-    'later-disjoint': ([['CO2', 'H2O']] * 3, [['NOx']] * 3),
+    'later-superset': ([['CO2', 'H2O']] * 3, [['CO2', 'H2O', 'CO']] * 3),
+    'later-disjoint': ([['CO2', 'H2O']] * 3, [['CO']] * 3),
     'fields-differ': ([['CO2'], ['CO2', 'H2O'], ['H2O']], [['CO2'], ['CO2', 'H2O'], ['H2O']]),
 }
 LAYOUTS2 = ['single', 'assoc1', 'assoc2', 'split', 'mapped', 'mapped2', 'memsave', 'memsave-assoc']
 
 
 def _sl_layouts(tier):
-    lens = [[3], [1, 51], [3, 2, 4]]
+    lens = [[3], [1, 51], [3, 2, 4]] + ([] if tier == 'quick' else [[2, 1], [51, 50, 52], [1, 1, 1, 1]])
     reads = ['session', 'reopen', 'append']
     cases = []
     for layout, read, ln, scheme in itertools.product(LAYOUTS2, reads, lens, SCHEMES):
@@ -218,6 +221,11 @@ def worker_init(tier, seed):
 
     env.load_config()
     rm.init()
+    # TrajectoryStore.close() runs a full gc.collect(); the forked worker inherits the complete case
+    # list, which made every collection ~70 ms. Park everything allocated so far in the permanent
+    # generation (harness-side only; objects created by the cases are still collected).
+    gc.collect()
+    gc.freeze()
 
 
 # ---------------------------------------------------------------- one round trip
@@ -606,6 +614,15 @@ def _read_all(case, store, stored, models, fs_idx, fsets, fnames, fs_names, wher
                         have = st[1] if st[0] == 'set' else []
                         if fd[0] == 'TSP' and st[0] != 'none' and set(have) != set(file_species.get(j, [])) and file_species.get(j):
                             finding = F_FILL
+            # the point count taken from the first per-point field met, although it holds no data
+            # (which field set is read first depends on set iteration order of the names)
+            states = [(fd, st) for j in fs_idx for fd, st in zip(fsets[j], case['trajs'][k]['st'][j])]
+            if cls == 'TypeError' and "object of type 'NoneType' has no len()" in msg and any(
+                fd[0] == 'TP' and st[0] == 'none' for fd, st in states
+            ):
+                finding = F_NPTS
+            if cls == 'StopIteration' and any(fd[0] == 'TSP' and (st[0] != 'set' or not st[1]) for fd, st in states):
+                finding = F_NPTS
             out.append(V(f'read-raised:{cls}', f'{where}: store[{i}] (trajectory #{k}) raised {cls}: {msg[:300]}', finding=finding))
             continue
         try:
